@@ -255,13 +255,16 @@ def Checked (w : World) (i : Nat) : Prop :=
 
 /-- the invariant of the interleaved runs -/
 structure Inv (w : World) : Prop where
+  /-- a worker between its track step and its validation step is the one whose object is stored: a worker
+  that finds another worker's object tracked stops (it is a duplicate) -/
+  owner : ∀ i, (w.pc i = .afterTrack ∨ w.pc i = .beforeRegister) → ∃ v, w.store = some ⟨i, v⟩
   /-- a worker that is about to validate has checked (and overwritten) its own object -/
   ready : ∀ i, w.pc i = .beforeRegister → Checked env pol inp rs w i
   /-- the object behind a valid entry belongs to a worker that is finished, and it is checked -/
   valid : ∀ e, w.store = some e → e.valid = true → w.pc e.ptr = .done ∧ Checked env pol inp rs w e.ptr
 
 theorem inv_init (raw : Nat → String) (c : Nat) : Inv env pol inp rs (World.init raw c) :=
-  ⟨fun i h => by simp [World.init] at h, fun e h => by simp [World.init] at h⟩
+  ⟨fun i h => by simp [World.init] at h, fun i h => by simp [World.init] at h, fun e h => by simp [World.init] at h⟩
 
 theorem checked_of_covertOf_eq {w w' : World} {i : Nat} (h : w'.covertOf i = w.covertOf i)
     (hc : Checked env pol inp rs w i) : Checked env pol inp rs w' i := by
@@ -269,24 +272,60 @@ theorem checked_of_covertOf_eq {w w' : World} {i : Nat} (h : w'.covertOf i = w.c
   exact ⟨n, hne, by rw [h, heq]⟩
 
 theorem inv_step (w : World) (i : Nat) (hinv : Inv env pol inp rs w) : Inv env pol inp rs (step env pol inp rs w i) := by
-  obtain ⟨hready, hvalid⟩ := hinv
+  obtain ⟨howner, hready, hvalid⟩ := hinv
+  have hstore := step_store env pol inp rs w i
   constructor
-  · intro j hj
+  · -- owner
+    intro j hj
     by_cases hji : j = i
     · subst hji
-      obtain ⟨hne, heq⟩ := step_pc_beforeRegister env pol inp rs w j hj
+      rcases hj with hj | hj
+      · obtain ⟨_, _, hs⟩ := step_pc_afterTrack env pol inp rs w j hj
+        exact ⟨false, hs⟩
+      · obtain ⟨hpc, _, _⟩ := step_pc_beforeRegister env pol inp rs w j hj
+        obtain ⟨v, hv⟩ := howner j (Or.inl hpc)
+        rcases hstore with h | ⟨h, _⟩ | ⟨h, _⟩
+        · exact ⟨v, by rw [h, hv]⟩
+        · rw [hpc] at h; cases h
+        · rw [hpc] at h; cases h
+    · rw [step_pc_other env pol inp rs w i j hji] at hj
+      obtain ⟨v, hv⟩ := howner j hj
+      rcases hstore with h | ⟨_, h, _⟩ | ⟨hpc, h, _⟩
+      · exact ⟨v, by rw [h, hv]⟩
+      · rw [hv] at h; cases h
+      · -- worker i validates, but the stored object is j's: then i = j
+        obtain ⟨v', hv'⟩ := howner i (Or.inr hpc)
+        rw [hv] at hv'
+        simp only [Option.some.injEq, Entry.mk.injEq] at hv'
+        exact absurd hv'.1 hji
+  · -- ready
+    intro j hj
+    by_cases hji : j = i
+    · subst hji
+      obtain ⟨_, hne, heq⟩ := step_pc_beforeRegister env pol inp rs w j hj
       exact ⟨w.cursor, hne, heq⟩
     · rw [step_pc_other env pol inp rs w i j hji] at hj
       exact checked_of_covertOf_eq env pol inp rs (step_covertOf_other env pol inp rs w i j hji) (hready j hj)
-  · intro e he hv
-    rcases step_store_valid env pol inp rs w i e he hv with hold | ⟨hpc, rfl, hdone⟩
-    · obtain ⟨hd, hc⟩ := hvalid e hold hv
+  · -- valid
+    intro e he hv
+    have hold : w.store = some e → (step env pol inp rs w i).pc e.ptr = .done ∧
+        Checked env pol inp rs (step env pol inp rs w i) e.ptr := by
+      intro hst
+      obtain ⟨hd, hc⟩ := hvalid e hst hv
       by_cases hei : e.ptr = i
       · have : step env pol inp rs w i = w := step_done env pol inp rs w i (by rw [← hei]; exact hd)
         rw [this]; exact ⟨hd, hc⟩
       · exact ⟨by rw [step_pc_other env pol inp rs w i _ hei]; exact hd,
           checked_of_covertOf_eq env pol inp rs (step_covertOf_other env pol inp rs w i _ hei) hc⟩
-    · exact ⟨hdone, checked_of_covertOf_eq env pol inp rs
+    rcases hstore with h | ⟨_, _, h⟩ | ⟨hpc, h, hdone⟩
+    · exact hold (by rw [← h]; exact he)
+    · rw [h] at he; simp only [Option.some.injEq] at he; subst he; cases hv
+    · -- worker i validates: what is stored is its own object
+      obtain ⟨v, hst⟩ := howner i (Or.inr hpc)
+      rw [h, hst] at he
+      simp only [registerStep, Option.some.injEq] at he
+      subst he
+      exact ⟨hdone, checked_of_covertOf_eq env pol inp rs
         (step_covertOf_self env pol inp rs w i (by rw [hpc]; simp)) (hready i hpc)⟩
 
 theorem inv_run (sched : List Nat) (w : World) (hinv : Inv env pol inp rs w) :
@@ -419,12 +458,16 @@ def inp0 : Inputs :=
     passes := fun _ => true }
 def rsTwo : Resolver Unit := fun n => if n = 0 then .err else .addr (some ()) ""
 def raw0 : Nat → String := fun i => if i = 0 then "evil.test:80" else "198.51.100.7:443"
--- the interleaving of the race: 1 looks, 0 looks, 0 tracks (its object is stored), 1 tracks, 0 is
--- rejected, 1 is checked and validates: what is dialable is worker 1's checked literal, not the raw
--- string of the object that was tracked first
-example : (runSched env0 pol0 inp0 rsTwo (World.init raw0 0) [1, 0, 0, 1, 0, 1, 1]).dialString
+-- the interleaving of the race: 1 looks, 0 looks, 0 tracks (its object is stored), 1 tracks — and finds
+-- another worker's object tracked: it is a duplicate and stops —, 0 is rejected: nothing is dialable.
+-- (Before the repair worker 1 went on and validated worker 0's object, whose covert is the raw name.)
+example : (runSched env0 pol0 inp0 rsTwo (World.init raw0 0) [1, 0, 0, 1, 0, 1, 1]).dialString = none := by
+  simp [runSched, step, World.init, World.dialString, updateAt, parseOrResolve, inp0, ans0, rsTwo, env0,
+    pol0, isBlocklistedCovertDomain]
+-- the same race won by the worker with the permitted literal: its own checked literal is what is dialable
+example : (runSched env0 pol0 inp0 rs0 (World.init raw0 0) [1, 0, 1, 0, 0, 1, 1]).dialString
     = some (joinHostPort "198.51.100.7" "443") := by
-  simp [runSched, step, World.init, World.dialString, updateAt, registerStep, parseOrResolve, inp0, ans0, rsTwo, env0,
+  simp [runSched, step, World.init, World.dialString, updateAt, registerStep, parseOrResolve, inp0, ans0, rs0, env0,
     pol0, isBlocklistedCovertDomain, isBlocklistedCovertAddr, addrText, joinHostPort_ne_empty]
 -- a single worker, sequentially: admitted with its checked literal; a later duplicate changes nothing
 example : (runSched env0 pol0 inp0 rs0 (World.init raw0 0) [1, 1, 1, 1]).dialString
